@@ -77,7 +77,7 @@ def model_runs(P, p, K, abort_at=None, change=None):
     return runs
 
 
-def h(sym, orders, K, mode, P=None, before=None):
+def h(sym, orders, K, mode, P=None, before=None, pmax=7):
     from ioflo.base import skedding
     n = len(orders)
     abort = change = None
@@ -94,7 +94,7 @@ def h(sym, orders, K, mode, P=None, before=None):
         P = sym.int("P", 1, 3)
     ps = []
     for i in range(n):
-        p = sym.int("p%d" % i, 0, 7) if (mode == "plain" or i == 0) else 0
+        p = sym.int("p%d" % i, 0, pmax) if (mode == "plain" or i == 0) else 0
         ps.append(p)
         [f for f in house.framers if f.name == "t%d" % i][0].period = p
     a_at = c_at = pnew = None
@@ -103,7 +103,7 @@ def h(sym, orders, K, mode, P=None, before=None):
         store.create("agoal").value = a_at
     if change:
         c_at = sym.int("cgoal", 0, K)
-        pnew = sym.int("pnew", 0, 7)
+        pnew = sym.int("pnew", 0, pmax)
         store.create("cgoal").value = c_at
         store.create("pnew").value = pnew
     sk = skedding.Skedder(name="s", period=1.0, houses=houses)
@@ -322,19 +322,21 @@ def obligations(tier):
         shapes = [["mid"], ["mid", "mid"], ["mid", "front"], ["back", "mid"], ["back", "front"], ["mid", "back", "front"], ["front", "mid", "mid"]]
     for orders in shapes:
         out.append(Ob("periods/%s/K%d" % ("-".join(orders), K), h, dict(orders=orders, K=K, mode="plain"),
-                      budget=600 if tier == "quick" else 2400, covers=["ran"],
+                      budget=900 if tier == "quick" else 2400, covers=["ran"],
                       bounds=dict(workers=len(orders), orders=orders, ticks=K, P="[1,3]", p="[0,7]")))
     for P in (1, 2, 3):
         for before in (True, False):
             for orders in ([["mid", "mid"]] if tier == "quick" else [["mid", "mid"], ["front", "back"]]):
                 out.append(Ob("abort/%s/K%d/P%d/%s" % ("-".join(orders), K, P, "bidder-first" if before else "bidder-last"), h,
                               dict(orders=orders, K=K, mode="abort", P=P, before=before),
-                              budget=600 if tier == "quick" else 2400, covers=["aborted"],
+                              budget=900 if tier == "quick" else 2400, covers=["aborted"],
                               bounds=dict(workers=len(orders), ticks=K, P=P, victim_period="[0,7]", abort_tick="[0,K]")))
             out.append(Ob("period-change/mid/K%d/P%d/%s" % (K, P, "bidder-first" if before else "bidder-last"), h,
-                          dict(orders=["mid"], K=K, mode="change", P=P, before=before),
-                          budget=600 if tier == "quick" else 2400, covers=["period-changed"],
-                          bounds=dict(workers=1, ticks=K, P=P, period="[0,7]", change_tick="[0,K]", new_period="[0,7]")))
-    out.append(Ob("float/exact-multiple-period", e2_drift, dict(K=8, ms=[2, 3, 4]), kind="e2", replay=e2_replay, budget=600,
-                  bounds=dict(K=8, m=[2, 3, 4], P="double in [2^-7,16]")))
+                          dict(orders=["mid"], K=K, mode="change", P=P, before=before, pmax=3 if tier == "quick" else 7),
+                          budget=900 if tier == "quick" else 2400, covers=["period-changed"],
+                          bounds=dict(workers=1, ticks=K, P=P, period="[0,3]" if tier == "quick" else "[0,7]", change_tick="[0,K]",
+                                      new_period="[0,3]" if tier == "quick" else "[0,7]")))
+    ms = [2] if tier == "quick" else [2, 3, 4]
+    out.append(Ob("float/exact-multiple-period", e2_drift, dict(K=8, ms=ms), kind="e2", replay=e2_replay, budget=900,
+                  bounds=dict(K=8, m=ms, P="double in [2^-7,16]")))
     return out
